@@ -440,6 +440,10 @@ func runOne(work, path string) {
 		c := &CoordCase{}
 		_ = json.Unmarshal(raw, c)
 		gen.Emit(runCoord(c))
+	case "readsel":
+		c := &ReadSelCase{}
+		_ = json.Unmarshal(raw, c)
+		gen.Emit(runReadSel(c))
 	case "send":
 		c := &SendCase{}
 		_ = json.Unmarshal(raw, c)
@@ -554,6 +558,9 @@ func main() {
 		gen.Emit(runCoord(genCoord(r.Fork())))
 	}
 	emitTrunc(work, r.Fork(), n/4+1)
+	for i := 0; i < n/8+1; i++ {
+		gen.Emit(runReadSel(genReadSel(r.Fork())))
+	}
 	for i := 0; i < 3+n/400; i++ {
 		c := genSend(r.Fork(), i)
 		runSendCase(work, c)
